@@ -21,9 +21,9 @@ var c20Hist *eng.Kind[HistCase]
 
 func init() {
 	c := eng.Register(&eng.Check{
-		ID:    "C20",
-		Title: "A runner behaves like a plain map of data plus a separate key-value store",
-		Rule: "operation menu of 22 (SetThis with nil / fresh maps / the same map again, SetThisValue, Resolve of 8 formulas that read and assign locals and fields, Set, Get): every history up to depth d is replayed on a fresh real runner in lock-step with a plain-map reference model (no state merging); then breadth-first to depth 7 with merging on the canonical observed state, where a state reached a second way must answer every probe like the first; after every step all caller-visible maps must equal the model's; distinct = distinct canonical states",
+		ID:          "C20",
+		Title:       "A runner behaves like a plain map of data plus a separate key-value store",
+		Rule:        "operation menu of 22 (SetThis with nil / fresh maps / the same map again, SetThisValue, Resolve of 8 formulas that read and assign locals and fields, Set, Get): every history up to depth d is replayed on a fresh real runner in lock-step with a plain-map reference model (no state merging); then breadth-first to depth 7 with merging on the canonical observed state, where a state reached a second way must answer every probe like the first; after every step all caller-visible maps must equal the model's; distinct = distinct canonical states",
 		TrustedBase: []string{"plain-map model of the runner in checks/c20.go"},
 		Assumptions: []string{"merging drops caller maps the runner no longer references; leaks into them are covered by the unmerged exploration"},
 		Run:         runC20,
